@@ -42,7 +42,11 @@ PROP = {'drive': ['Cff'], 'modules': ['SfntV.Props.C13'],
              'Non-vacuity: three written files (simple, custom encoding, CID with two FDs) are read back inside Lean.',
              'C13_dictreal_roundtrip is proved from the nine-digit integer and decimal-point position onwards (|l| <= 280); '
              'the float64 step of encodeFloat (Log10/Pow10/Round producing the nine digits, i.e. "to nine significant digits") '
-             'is not modelled; it is compared by correspondence on decimals of 1-12 digits.',
+             'is not modelled; it is compared by correspondence on decimals of 1-12 digits, including a fixed boundary family: mantissas '
+             '999999999, 999999998, 100000000, 100000001 and shorter all-nines at every exponent -40..40 and +-100/200/290, both signs '
+             '(V cff.real.enc/dec: the model is exact on at most nine digits; D cff.dict.specdec), 10-12 digit values that round to 10^9 or '
+             'just below it / to 10^8 or just above it (no exact ties), and whole fonts with all-nines ItalicAngle, StdHW/StdVW, BlueScale and '
+             'FontMatrix entries through cff.file.rt / cff.file.model.',
              'C13_encoding_roundtrip carries the hypothesis "encodeEncoding returned bytes": inside the contiguity domain the '
              'encoder refuses (error "too many segments") when the primary codes form more than 255 ranges (256 encoded glyphs '
              'with scattered codes); the real code returns that error there, it does not write a wrong table.',
